@@ -31,6 +31,31 @@ claimed = {
    text="Generated NSX pairs (several policies, rules sharing sequence numbers, groups renamed/shared/duplicated, small and large address-list changes, in-place service changes, id clashes, IPv6/raw parts) are run through the real compare; the emitted requests are executed on the store model and each policy must end with the target's rules, no left-over Netspoc service/group, second compare empty, 'unchanged' only if equivalent. Known root cause F32 (tied rules paired by listing order) is set aside by signature.",
    note="Trusted: harness NSX model (harness/nsxm) incl. its reference merge of IPv4/IPv6/raw parts; calibrated on the repository's expected outputs (TestCorpusNSX, 42 of 44 covered).",
    ref="DESIGN.md §3 C04"),
+ "C05": dict(
+   level="exploration", technique="property-based testing (rapid): route-table model executing the emitted 'ip route add/del' commands; metamorphic relation between two independent printers (Netspoc spelling / iptables-save spelling) of one abstract ruleset; round trip of the emitted restore file through an independent parser",
+   text="Generated route-set pairs are compared by the real tool and the emitted commands executed on a kernel-like route table (File exists / No such process) which must end with exactly the target's static routes; generated iptables rulesets are printed in Netspoc spelling and in iptables-save spelling by two independent printers: the tool must report a difference iff the abstract rulesets differ, the emitted restore file must parse to the target, and the round trip target -> device -> iptables-save -> compare must be empty. Known normalisation gaps F30-F34, F36 are set aside by signature.",
+   note="Trusted: harness Linux model (harness/linuxm): the author's reading of ip-route and iptables-save spelling restricted to the options normalizeIPTables claims to handle; calibrated on the repository's expected outputs (19 of 21).",
+   ref="DESIGN.md §3 C05"),
+ "C06": dict(
+   level="exploration", technique="property-based testing (rapid) over end-to-end dialogues: real drc/do-approve binaries against stateful simulators (sshdev on a pty, httpdev over HTTPS); the oracle reads the simulator's transcript",
+   text="For all five device types and both front-ends, scenarios vary the hostname the device reports, the managed-by marker (present, absent, other spelling, checkbanner not configured) and the PAN-OS HA state, always with a generated pending change; from the simulator's transcript a blocking combination must show no change/prepare/save line, unchanged device state, non-zero exit and a diagnostic, every other combination must run to completion. Known finding F5 (Linux marker not enforced) is set aside by signature.",
+   note="Trusted: the simulators' dialogue (harness/sim/sshdev, harness/sim/httpdev) mirrors what the tool's own SIMULATE_ROUTER tests exercise; time-outs without an injected fault are discarded as load noise, never reported.",
+   ref="DESIGN.md §3 C06"),
+ "C09": dict(
+   level="fault_enumeration", technique="fault injection over end-to-end dialogues (rapid draws scenario, fault kind and position; a clean run fixes the number of dialogue steps)",
+   text="A clean run of the real binary against the simulator fixes the dialogue length n; then one fault (device error text, unexpected output, garbled echo, connection close, stall beyond the timeout, HTTP 5xx/4xx, malformed reply, status=error, failed commit job, non-zero exit status) is injected at a drawn step. After the fault no change/save may reach the device except documented clean-up and the second half of a joined line, exit status must be non-zero, do-approve must record FAILED/DIFF and END: FAILED; conversely status OK requires every command accepted and the save confirmed.",
+   note="Trusted: simulators; steps whose answer is free-form by design (version, pager, terminal settings, login banner text, enable) are exempt for output-level faults; Go's transparent retry of an idempotent request after a closed connection is not counted as a fault. Quick samples positions; thorough samples many more (not every k of every scenario).",
+   ref="DESIGN.md §3 C09"),
+ "C11": dict(
+   level="exploration", technique="property-based testing (rapid) over end-to-end compare dialogues with interlock outcomes and injected faults; simulator state hash before/after and read-only whitelist",
+   text="Real 'drc -C' and 'do-approve compare' runs against the simulators for all five device types, with generated non-empty differences, missing marker / wrong hostname and optionally one fault: the simulator's state hash must be identical before and after, no change/prepare/save/reload line may be received (ASA 'terminal width 511' is the one permitted config-mode command) and a .cmp file appears iff changes were found.",
+   note="Trusted: simulators' classification of received lines/requests.",
+   ref="DESIGN.md §3 C11"),
+ "C20": dict(
+   level="exploration", technique="deterministic enumeration of the mutation family named by the property (quick: seed-indexed sample, thorough: exhaustive, 536,894 mutants) plus native go fuzz targets seeded from the corpus; oracle = exit status 0/1, diagnostic on rejection, no escaped panic, watchdog with fresh-process confirmation",
+   text="Every configuration line of every DEVICE/NETSPOC/IPv6/raw/info block of the repository's test data is mutated (word-prefix truncation, token deletion/duplication/swap, indentation changes, line duplication/move, empty/garbage/oversized files, truncation at structural boundaries) for all five device types and both argument positions and run through the function behind 'drc FILE1 FILE2'; in-process crashes and a sample are confirmed with the real drc binary; status-file mutants are run through missing-approve and do-approve. Two deliberate panic(err) sites pinned by the repository's own expected outputs are listed as known findings.",
+   note="Trusted: the enumeration is over the repository's example lines, not all bytes; ios_long-acl.t (10,003 generated lines) is represented by its distinct line shapes. Thorough is exhaustive over the stated family (evidence notes 'exhaustive').",
+   ref="DESIGN.md §3 C20"),
  "C07": dict(
    level="exploration", technique="property-based testing (rapid): device decorated with out-of-scope content; frame condition checked on the model after every executed command",
    text="Generated pairs whose device side carries content outside Netspoc's scope; the protected set is computed by the harness from the property's definition (independently of the tool's needed/toDelete marking) and its text must be identical after every step of the emitted script executed on the model.",
